@@ -34,6 +34,7 @@ def run(ctx):
     ctx.guard(rule_a, ctx, ix)
     ctx.guard(rule_b, ctx, ix)
     ctx.guard(rule_c, ctx, ix)
+    ctx.guard(rule_d, ctx, ix)
 
 
 def family(ix):
@@ -194,6 +195,44 @@ def rule_c(ctx, ix):
                           '%(func)s assigns the new indices with `%(stmt)s` but can return without rebuilding ' + fld +
                           ' (used by ' + ', '.join(sorted(users)) + '): after the indices change, those methods still describe the '
                           'old slice of the parent')
+
+
+def rule_d(ctx, ix):
+    """A view of a categorical array must use its parent's categories, otherwise its codes (and every selection evaluated on
+    codes through a view) disagree with the same view of the full array."""
+    R = 'C04.d'
+    ctx.describe(R, 'views of categorical arrays inherit the categories of the array they were taken from', floor=2)
+    c = ix.cls('glue.utils.array.categorical_ndarray')
+    f = c.resolve_func('__array_finalize__')
+    if f is None:
+        raise AnalysisError('categorical_ndarray.__array_finalize__ vanished')
+    s, obj = f.params[0], f.params[1]
+    stores = [st for st in walk_no_nested(f.node) if isinstance(st, ast.Assign)
+              and unparse(st.targets[0]) in ('%s.categories' % s, '%s._categories' % s)]
+    from ..util import guard_chain, parent_map
+    pm = parent_map(f.node)
+    ok = False
+    detail = 'categorical_ndarray.__array_finalize__ no longer hands the parent\'s categories to the view'
+    for st in stores:
+        tests = [unparse(g.test) for g, br in guard_chain(pm, st, f.node) if isinstance(g, ast.If)]
+        forced = unparse(st.value) == '%s.categories' % obj          # the property: computes them if needed
+        only_isinstance = all(t.replace(' ', '') == 'isinstance(%s,categorical_ndarray)' % obj for t in tests)
+        if forced and only_isinstance:
+            ok = True
+        else:
+            detail = ('a view takes its categories with `%s` under `%s`: when the parent has not computed its categories yet the '
+                      'view derives its own from the elements it happens to contain, so data[cid, view].codes differs from '
+                      'data[cid].codes[view]' % (norm(st), ' and '.join(tests)))
+    ctx.ob(R, f.construct, 'the view receives obj.categories (computed on demand), whenever obj is categorical', ok, detail=detail,
+           where=f.where)
+    g = c.resolve_func('_update_categories_and_codes')
+    calls = [x for x in calls_in(g.node) if call_name(x) == 'unique']
+    pair = [st for st in walk_no_nested(g.node) if isinstance(st, ast.Assign) and isinstance(st.targets[0], ast.Tuple)
+            and [unparse(e) for e in st.targets[0].elts] == ['%s._categories' % g.self_name, '%s._codes' % g.self_name]
+            and isinstance(st.value, ast.Call) and call_name(st.value) == 'unique']
+    ctx.ob(R, g.construct, 'categories and codes come from one unique() call (or codes are looked up in the given categories)',
+           len(calls) == 1 and len(pair) == 1 and any(call_name(x) == 'index_lookup' for x in calls_in(g.node)),
+           detail='categorical_ndarray no longer derives categories and codes together', where=g.where)
 
 
 ID_LIKE = {'cid', 'cids', 'weights', 'target_cid'}
